@@ -283,6 +283,9 @@ structure OptStep where
   /-- absent ⇒ `ProtocolError` when the option with this key is truthy
   (HELLO: resume-token / resume-session, WELCOME: resume_token / resumable) -/
   absentErrIf : Option Str := none
+  /-- Spec only: the integer(s) are WAMP ids (session / subscription / registration ids), so C08 expects them in
+  [0, 2^53] although today's `parse` only checks `type(x) == int` -/
+  idLike : Bool := false
 
 /-- one typed entry: `if key in options: check` (absent ⇒ default) -/
 def OptStep.parse (O : Oracles) (d : Dict) (s : OptStep) : R :=
@@ -393,6 +396,12 @@ def checkKwargs : ArgsVariant → WVal → R
   | .publish, .bytes b => .ok (.bytes b)
   | _, _ => fail .protocol cs!"kwargs"
 
+def argsPart (t : TailSpec) (k : Nat) (w : List WVal) : R :=
+  if w.length > k + 1 then checkArgs t.variant (w.getD (k + 1) .null) else .ok .null
+
+def kwargsPart (t : TailSpec) (k : Nat) (w : List WVal) : R :=
+  if w.length > k + 2 then checkKwargs t.variant (w.getD (k + 2) .null) else .ok .null
+
 /-- the six tail fields, in the order the real `parse` evaluates them -/
 def parseTail (O : Oracles) (t : TailSpec) (k : Nat) (d : Dict) (w : List WVal) : Except Err Msg :=
   if payloadMode t k w then do
@@ -402,8 +411,8 @@ def parseTail (O : Oracles) (t : TailSpec) (k : Nat) (d : Dict) (w : List WVal) 
     pure [(cs!"args", .null), (cs!"kwargs", .null), (cs!"payload", w.getD (k + 1) .null),
           (cs!"enc_algo", algo), (cs!"enc_key", key), (cs!"enc_serializer", ser)]
   else do
-    let args ← if w.length > k + 1 then checkArgs t.variant (w.getD (k + 1) .null) else (.ok .null : R)
-    let kwargs ← if w.length > k + 2 then checkKwargs t.variant (w.getD (k + 2) .null) else (.ok .null : R)
+    let args ← argsPart t k w
+    let kwargs ← kwargsPart t k w
     pure [(cs!"args", args), (cs!"kwargs", kwargs), (cs!"payload", .null),
           (cs!"enc_algo", .null), (cs!"enc_key", .null), (cs!"enc_serializer", .null)]
 
@@ -511,20 +520,34 @@ def kwargsCheck (m : Msg) : Except Err Unit :=
   | .dict _ => pure ()
   | _ => fail .protocol cs!"kwargs"
 
-/-- `Klass.parse(wmsg)` for a `wmsg` whose first element is the class's type code -/
-def parse (σ : Schema) (O : Oracles) (w : List WVal) : Except Err Msg := do
+def tailPart (σ : Schema) (O : Oracles) (w : List WVal) : Except Err Msg :=
+  match σ.tail with
+  | some t => parseTail O t σ.k (σ.optsOf w) w
+  | none => pure []
+
+def customPart (σ : Schema) (O : Oracles) (w : List WVal) : Msg :=
+  if σ.custom then [(cs!"custom", .dict ((σ.optsOf w).filter (fun kv => O.customAttr kv.1)))] else []
+
+/-- the body of `Klass.parse` up to the constructor call: everything that raises `ProtocolError` / `InvalidUriError` -/
+def parseStage (σ : Schema) (O : Oracles) (w : List WVal) : Except Err Msg :=
   if !(σ.lengths.contains w.length) then fail .protocol cs!"length"
-  let pm ← parsePos O w σ.pos w.tail
-  let d := σ.optsOf w
-  let tm ← (match σ.tail with
-            | some t => parseTail O t σ.k d w
-            | none => pure [])
-  let om ← parseOpts O d σ.opts
-  let cm : Msg := if σ.custom then [(cs!"custom", .dict (d.filter (fun kv => O.customAttr kv.1)))] else []
-  let m := pm ++ tm ++ om ++ cm
+  else do
+    let pm ← parsePos O w σ.pos w.tail
+    let tm ← σ.tailPart O w
+    let om ← parseOpts O (σ.optsOf w) σ.opts
+    pure (pm ++ tm ++ om ++ σ.customPart O w)
+
+/-- the constructor `Klass(...)` called at the end of `parse`: its `assert`s on values `parse` did not validate
+(`AssertionError`), then `_validate_kwargs` (`ProtocolError`) -/
+def ctorStage (σ : Schema) (O : Oracles) (m : Msg) : Except Err Unit := do
   ctorOpts m σ.opts
   ctorCross O m σ.cross
-  if σ.tail.isSome then kwargsCheck m
+  (if σ.tail.isSome then kwargsCheck m else pure ())
+
+/-- `Klass.parse(wmsg)` for a `wmsg` whose first element is the class's type code -/
+def parse (σ : Schema) (O : Oracles) (w : List WVal) : Except Err Msg := do
+  let m ← σ.parseStage O w
+  σ.ctorStage O m
   pure m
 
 /-! ### marshal -/
